@@ -1396,9 +1396,22 @@ class BaseInterpreter(Generic[TContext, TEvent]):
             )
             return None
         # 🗺️ Fall back to the originating service key recorded at spawn time.
-        for actor_id, source_key in self._actor_sources.items():
-            if source_key == spec and actor_id in self._actors:
-                return self._actors[actor_id]
+        by_source = [
+            self._actors[actor_id]
+            for actor_id, source_key in self._actor_sources.items()
+            if source_key == spec and actor_id in self._actors
+        ]
+        if len(by_source) == 1:
+            return by_source[0]
+        if len(by_source) > 1:
+            logger.warning(
+                "⚠️ Actor key '%s' is ambiguous (%d actors were spawned from "
+                "that service). Use an explicit `id` or `systemId` to "
+                "disambiguate; event dropped.",
+                spec,
+                len(by_source),
+            )
+            return None
         if spec in ("parent", "#parent") and self.parent is not None:
             return self.parent
         return None
